@@ -43,6 +43,9 @@ structure Facts where
   /-- list `+` accepts a frozen list as its right operand (`pyList.Operator`, case Add: a branch on
       `operand.(pyFrozenList)`; without it the sum fails with "Cannot add list and list") -/
   addAcceptsFrozen : Bool := true
+  /-- in that branch the RESULT is clipped (`slices.Clip(append(l, l2.pyList...))`): the sum has no spare capacity.
+      `false`: `append(slices.Clip(l), l2.pyList...)` — a fresh array, but with the capacity Go's `append` gives it -/
+  addFrozenClipsResult : Bool := true
   /-- `sorted(reverse=True)` sorts ascending and then reverses the result (`slices.Reverse`), instead of sorting with
       the flipped comparison: tied elements then come out in reversed original order -/
   sortedRevAfter : Bool := false
@@ -364,6 +367,29 @@ def listRepeat (arr off len : Nat) (n : Int) : EM Val := do
     let a ← allocArr out
     pure (.list false a 0 out.length out.length)
 
+/-- capacities (in elements) of the allocator's size classes for 16-byte elements (`pyObject` is an interface) -/
+def sizeClassCaps : List Nat :=
+  [1, 2, 3, 4, 5, 6, 7, 8, 9, 10, 11, 12, 13, 14, 15, 16, 18, 20, 22, 24, 26, 28, 30, 32, 36, 40, 44, 48, 56, 64,
+   72, 80, 88, 96, 112, 128]
+
+/-- `growslice`: the capacity `append` gives a slice of capacity `old` (< 256) that has to hold `needed` elements -/
+def goGrowCap (old needed : Nat) : Option Nat :=
+  let want := if needed > 2 * old then needed else 2 * old
+  sizeClassCaps.find? (· ≥ want)
+
+/-- `append(slices.Clip(l), ys...)`: never writes into `l`'s array; a non-empty `ys` gives a fresh array with the
+    capacity of `growslice`, i.e. possibly with spare capacity behind the result -/
+def listAppendClipFirst (arr off len : Nat) (ys : List Val) : EM Val := do
+  if ys.isEmpty then pure (.list false arr off len len)
+  else do
+    let xs ← elems arr off len
+    let n := len + ys.length
+    match goGrowCap len n with
+    | none => fail "model: growslice beyond 128 elements is not modelled"
+    | some c => do
+      let a ← allocArr (xs ++ ys ++ List.replicate (c - n) Val.none)
+      pure (.list false a 0 n c)
+
 /-- `slices.Clip(append(l, l2...))` -/
 def listAppend (F : Facts) (arr off len cap : Nat) (ys : List Val) : EM Val := do
   let n := ys.length
@@ -552,7 +578,8 @@ def binOp (F : Facts) (op : BinOp) (obj operand : Val) : EM Val :=
           if fz2 && !F.addAcceptsFrozen then fail "Cannot add list and list"
           else do
             let ys ← elems arr2 off2 len2
-            listAppend F arr off len cap ys
+            if fz2 && !F.addFrozenClipsResult then listAppendClipFirst arr off len ys
+            else listAppend F arr off len cap ys
         | v => fail s!"Cannot add list and {typeName v}"
       | .lt => cmpOp F 64 .lt obj operand
       | .mul =>
